@@ -35,7 +35,7 @@ from ser import Ser, Unsupported
 from props import c03 as J
 
 LEAN_MODULE = "Optyx.Props.C19"
-EXTRA_MODULES = ["Optyx.Props.PinsC19"]   # transcription anchors (harness/source_pins.py)
+EXTRA_MODULES = ["Optyx.Props.PinsC19", "Optyx.Props.ClosurePathTie"]   # transcription anchors (harness/source_pins.py)
 THEOREMS = [
     "Optyx.Props.Closures.closureTables_agree",
     "Optyx.Props.Closures.sanitizeShape_agrees",
@@ -44,6 +44,10 @@ THEOREMS = [
     "Optyx.Props.C19.derivative_outputs_finite",
     "Optyx.Props.C19.paths_agree_on_specials",
     "Optyx.Props.C19.regular_unchanged",
+    "Optyx.Props.ClosurePathTie.powerGradient_path",
+    "Optyx.Props.ClosurePathTie.unaryGradient_path",
+    "Optyx.Props.ClosurePathTie.compileGradient_path",
+    "Optyx.Props.ClosurePathTie.compileHessian_path",
     "Optyx.Props.PinsC19.anchors",
 ]
 ASSUMPTIONS = [
